@@ -61,6 +61,8 @@ struct World {
     /// current region list of each replaceable memory object
     atomics: Vec<Vec<usize>>,
     exts: Vec<(usize, usize)>,
+    /// one file shared (same descriptor) by several regions at overlapping offset ranges
+    shared: Option<(Arc<std::fs::File>, u64)>,
 }
 
 impl World {
@@ -153,7 +155,7 @@ impl Scenario for Seq {
 
     fn run(&self) -> RunInfo {
         cx().mode = Mode::Setup;
-        let mut w = World { regs: Vec::new(), hs: Vec::new(), atomics: Vec::new(), exts: Vec::new() };
+        let mut w = World { regs: Vec::new(), hs: Vec::new(), atomics: Vec::new(), exts: Vec::new(), shared: None };
         let nops = 2 + cx().a(24) as usize;
         let mut log: Vec<String> = Vec::new();
         let (mut accepted, mut refused, mut drops) = (0, 0, 0);
@@ -221,10 +223,12 @@ fn check_world(w: &World, step: usize, line: &str, before_anom: usize) {
     for r in &w.regs {
         let owners = w.owners(r.id);
         let live = match r.mid {
-            Some(m) => cx().sys.maps.iter().any(|x| x.id == m && x.live),
+            Some(m) => cx().sys.origin_live(m),
             None => true,
         };
-        if owners > 0 && !live {
+        // reachable means every page of the region, not just some piece of its mapping
+        let reachable = r.mid.is_none() || cx().sys.covered(r.host, r.size);
+        if owners > 0 && !(live && reachable) {
             cx().violate("C12", "C12/early-unmap", format!("{} mapping unmapped while reachable", r.kind), format!("step {} {}: region #{} ({}, {} bytes) still has {} owner(s) but its mapping was unmapped", step, line, r.id, r.kind, r.size, owners));
             return;
         }
@@ -315,11 +319,21 @@ fn new_region(w: &mut World) -> Result<(Reg, usize), String> {
     let res: Result<Reg, MErr> = match kind {
         "anonymous" => Reg::from_range(GuestAddress(base), size, None),
         "file-backed" => {
-            let off = 4096 * cx().a(2) as u64;
-            // now and then the file is one byte too short: the request must be refused and leave nothing behind
-            short_file = cx().a(8) == 0;
-            let f = crate::gmworld::memfd(off + size as u64 - short_file as u64);
-            Reg::from_range(GuestAddress(base), size, Some(FileOffset::new(f, off)))
+            if cx().a(2) == 0 && w.shared.as_ref().map(|s| s.1 < 14).unwrap_or(true) {
+                // windows of one shared file, one page apart: ranges longer than a page alias each
+                // other's memory, which is a legitimate layout (mirrors, ROM shadows)
+                let (f, next) = w.shared.get_or_insert_with(|| (Arc::new(crate::gmworld::memfd(16 * 4096)), 0));
+                let off = 4096 * *next;
+                *next += 1;
+                cx().count("probe.region_on_shared_file_window");
+                Reg::from_range(GuestAddress(base), size, Some(FileOffset::from_arc(f.clone(), off)))
+            } else {
+                let off = 4096 * cx().a(2) as u64;
+                // now and then the file is one byte too short: the request must be refused and leave nothing behind
+                short_file = cx().a(8) == 0;
+                let f = crate::gmworld::memfd(off + size as u64 - short_file as u64);
+                Reg::from_range(GuestAddress(base), size, Some(FileOffset::new(f, off)))
+            }
         }
         _ => {
             #[cfg(not(feature = "xen"))]
